@@ -203,10 +203,16 @@ class HyperbandPruner(BasePruner):
 
         _logger.debug("Hyperband has {} brackets".format(self._n_brackets))
 
+        # Another thread may run this method at the same time (``n_jobs > 1``), so the
+        # attributes are built locally and published at once. ``_pruners`` is assigned last
+        # because a non-empty ``_pruners`` marks the pruner as initialized.
+        total_trial_allocation_budget = 0
+        trial_allocation_budgets: list[int] = []
+        pruners: list[SuccessiveHalvingPruner] = []
         for bracket_id in range(self._n_brackets):
             trial_allocation_budget = self._calculate_trial_allocation_budget(bracket_id)
-            self._total_trial_allocation_budget += trial_allocation_budget
-            self._trial_allocation_budgets.append(trial_allocation_budget)
+            total_trial_allocation_budget += trial_allocation_budget
+            trial_allocation_budgets.append(trial_allocation_budget)
 
             pruner = SuccessiveHalvingPruner(
                 min_resource=self._min_resource,
@@ -214,7 +220,10 @@ class HyperbandPruner(BasePruner):
                 min_early_stopping_rate=bracket_id,
                 bootstrap_count=self._bootstrap_count,
             )
-            self._pruners.append(pruner)
+            pruners.append(pruner)
+        self._total_trial_allocation_budget = total_trial_allocation_budget
+        self._trial_allocation_budgets = trial_allocation_budgets
+        self._pruners = pruners
 
     def _calculate_trial_allocation_budget(self, bracket_id: int) -> int:
         """Compute the trial allocated budget for a bracket of ``bracket_id``.
